@@ -239,8 +239,28 @@ fn build_request(s: &Setup, r: &Value) -> Built {
       let sv = Val::Str(pstr(r, "s").to_string());
       let nv = Val::Num(if pstr(r, "n").is_empty() { "0".to_string() } else { pstr(r, "n").to_string() });
       let bv = Val::Bool(pbool(r, "b"));
+      // collection and component typed inputs: numbers list, person {name, age, scores}
+      let nums: Vec<Val> = pstr(r, "nums").split(',').filter(|x| !x.is_empty()).map(|x| Val::Num(x.to_string())).collect();
+      let person = Val::Ctx(vec![("name".into(), sv.clone()), ("age".into(), nv.clone()), ("scores".into(), Val::List(nums.clone()))]);
+      // raw TCK input overriding the generic rendering (nil list, nil component)
+      let mut raw_tck: Option<Value> = None;
       // (decision, inputs by name, value the decision must return)
       let (decision, inputs, expected): (String, Vec<(&str, Val)>, Val) = match dec {
+        "l" => ("echo_l".into(), vec![("l", Val::List(nums.clone()))], Val::List(nums.clone())),
+        "p" => ("echo_p".into(), vec![("p", person.clone())], person.clone()),
+        "lnil" => {
+          raw_tck = Some(json!([{"name": "l", "value": {"list": {"items": [], "isNil": true}}}]));
+          ("echo_l".into(), vec![("l", Val::Null)], Val::Null)
+        }
+        "pnil" => {
+          raw_tck = Some(json!([{"name": "p", "value": {"components": [
+            {"name": "name", "value": sv.to_tck(), "isNil": false},
+            {"name": "age", "value": nv.to_tck(), "isNil": false},
+            {"name": "scores", "value": {"list": {"items": [], "isNil": true}}, "isNil": false}
+          ]}}]));
+          let pn = Val::Ctx(vec![("name".into(), sv.clone()), ("age".into(), nv.clone()), ("scores".into(), Val::Null)]);
+          ("echo_p".into(), vec![("p", pn.clone())], pn)
+        }
         "n" => ("echo_n".into(), vec![("n", nv.clone())], nv.clone()),
         "b" => ("echo_b".into(), vec![("b", bv.clone())], bv.clone()),
         "snull" => ("echo_s".into(), vec![("s", Val::Null)], Val::Null),
@@ -271,7 +291,7 @@ fn build_request(s: &Setup, r: &Value) -> Built {
         _ => ("echo_s".into(), vec![("s", sv.clone())], sv.clone()),
       };
       if pbool(r, "tck") {
-        let input: Vec<Value> = inputs.iter().map(|(k, v)| json!({"name": k, "value": v.to_tck()})).collect();
+        let input: Value = raw_tck.unwrap_or_else(|| Value::Array(inputs.iter().map(|(k, v)| json!({"name": k, "value": v.to_tck()})).collect()));
         let body = json!({"model": model_name(m), "invocable": decision, "input": input}).to_string();
         json_post("/tck/evaluate", body, Op::Echo(model_name(m), expected.clone(), true), format!("tck-echo {}", expected.class()))
       } else {
@@ -1762,18 +1782,24 @@ const TEMPORALS: [(&str, &[&str]); 5] = [
 
 fn gen_echo(rng: &mut Rng, m: String) -> Value {
   let tck = rng.chance(2, 5);
-  let dec = match rng.index(12) {
+  let dec = match rng.index(17) {
     0..=3 => "s",
     4..=5 => "n",
     6 => "b",
     7 => "snull",
     8..=9 => "mix",
+    12 => "l",
+    13 | 14 => "p",
+    15 => "lnil",
+    16 => "pnil",
     _ => {
       let (dec, texts) = rng.pick(&TEMPORALS);
       return json!({"kind": "echo", "m": m, "tck": tck, "dec": dec, "tv": rng.pick(texts)});
     }
   };
-  json!({"kind": "echo", "m": m, "tck": tck, "dec": dec, "s": crate::jsonval::gen_string(rng), "n": crate::jsonval::gen_number(rng), "b": rng.chance(1, 2)})
+  let n_nums = rng.index(4);
+  let nums: Vec<String> = (0..n_nums).map(|_| crate::jsonval::gen_number(rng)).collect();
+  json!({"kind": "echo", "m": m, "tck": tck, "dec": dec, "s": crate::jsonval::gen_string(rng), "n": crate::jsonval::gen_number(rng), "b": rng.chance(1, 2), "nums": nums.join(",")})
 }
 
 const DEF_KINDS: [&str; 5] = ["add", "replace", "remove", "clear", "deploy"];
